@@ -181,6 +181,21 @@ CLAIMS["C35"] = (
     "address parsing) is not under contract.",
     "DESIGN.md section 4, C35")
 
+CLAIMS["C37"] = (
+    "The timing wheel against the abstract view ticksLeft(key) = distance of the key's bucket from the hand + whole turns * wheel size "
+    "(symbolic wheel size and tick): add registers the key ticksLeft = delay/tick ticks ahead, whatever was registered for it before "
+    "(a re-registration moves the key's single entry and restarts the count; the entry carries the new callback), and leaves every other key "
+    "alone; handleTick forgets exactly the keys with no ticks left (whose callbacks it starts), brings every other key one tick closer and "
+    "advances the hand modulo the wheel size (loop invariant over the ranged bucket map with its visited set); remove forgets the key so "
+    "that no later tick fires it; NewTimeWheel builds a well-formed empty wheel; all preserve the representation invariant (one "
+    "registration per key, index map and buckets consistent). Recorded finding: the delay is truncated to whole ticks, so a timeout that "
+    "is not a multiple of the tick fires up to one tick early (residual obligation for multiples of the tick is discharged).",
+    "Trusted: Duration.Seconds and the float -> int conversion as uninterpreted functions; the callback runs in a goroutine whose effect is "
+    "outside the view ('closed exactly once' = its key leaves the wheel when it is started); the pipeline goroutine that feeds add / remove / "
+    "handleTick from the channel (select, sleep) and Session.Run's use of the wheel are not under contract; 'fires at the d-th tick after "
+    "the last add' is induction over ticks from these contracts (meta-argument). Nonlinear arithmetic (turns * size) is decided by z3 5.1 only.",
+    "DESIGN.md section 4, C37")
+
 NA = {
  "C02": "not applicable to contract-based verification here: the oracle is the result of executing SQL on data (what one MySQL holding all shards would return); no contract within reach expresses an SQL execution semantics, and the rewriter is ~3k lines of visitors over TiDB AST types (DESIGN.md section 5)",
  "C06": "not applicable: the property compares a token pre-check with the decision of the yacc-generated parser; the specification is that parser (tables + hand-written lexer), which is outside the verifier's subset (DESIGN.md section 5)",
